@@ -150,12 +150,61 @@ func (p c09) Run(c *core.Ctx, idx int) {
 	c.Count("store_" + storeName)
 	nops := 2 + r.Intn(11)
 	var history []string
-	for op := 0; op < nops; op++ {
+	for op := 0; op < nops+2; op++ {
 		src := dp.Derive(r, s, model, s.Top, do)
 		if r.Intn(3) == 0 {
 			src = dp.GenTree(r, s, do)
 		}
-		useJSON := r.Intn(3) == 0
+		// the last two steps are directed: one leaf of a case that is not the selected one of a top-level choice is written, (a) with
+		// Set on the leaf's own selection, (b) by an upsert through a selection whose request parameters hide a node of the selected case.
+		// Either way the data of the selected case goes
+		directed, hideName := "", ""
+		var dleaf *dp.SNode
+		if op >= nops {
+			for _, ch := range s.Top {
+				if ch.Kind != dp.Choice || ch.Module != "" {
+					continue
+				}
+				var selected *dp.SNode
+				for _, kase := range ch.Children {
+					if dp.HasData(model, kase) {
+						selected = kase
+					}
+				}
+				if selected == nil {
+					continue
+				}
+				for _, kase := range ch.Children {
+					if kase == selected || dleaf != nil {
+						continue
+					}
+					for _, m := range kase.Children {
+						if m.Kind == dp.Leaf && m.Module == "" && m.Type.Base != "empty" && m.Type.Wrap != "leafref" {
+							dleaf = m
+							break
+						}
+					}
+				}
+				if dleaf != nil {
+					for _, m := range selected.DataChildren() {
+						if dp.HasData(model, m) {
+							hideName = m.Name
+						}
+					}
+					break
+				}
+			}
+			if dleaf == nil {
+				break
+			}
+			directed = []string{"set-on-leaf", "upsert-thru-xfields"}[(op-nops+idx)%2]
+			if directed == "upsert-thru-xfields" && (hideName == "" || s.AugName != "") {
+				break
+			}
+			src = dp.NewDNode(nil)
+			src.Leaves[dleaf.Name] = &dp.LVal{V: []string{dp.RandScalar(r, dleaf.Type, false)}}
+		}
+		useJSON := r.Intn(3) == 0 && directed == ""
 		impl := "refstore"
 		var srcNode node.Node = dp.NewStore(s, src).Node()
 		if useJSON {
@@ -167,7 +216,16 @@ func (p c09) Run(c *core.Ctx, idx int) {
 			}
 			srcNode = n
 		}
-		history = append(history, fmt.Sprintf("upsertFrom(%s) S=%s", impl, head(oneLineTree(s, src), 400)))
+		switch directed {
+		case "":
+			history = append(history, fmt.Sprintf("upsertFrom(%s) S=%s", impl, head(oneLineTree(s, src), 400)))
+		case "set-on-leaf":
+			impl = "set-on-leaf"
+			history = append(history, fmt.Sprintf("Find(%q).Set(%s)", dleaf.Name, src.Leaves[dleaf.Name]))
+		default:
+			impl = "upsert-thru-xfields"
+			history = append(history, fmt.Sprintf("Root().Constrain(fc.xfields=%s).UpsertFrom S=%s", hideName, head(oneLineTree(s, src), 400)))
+		}
 		before := model.Clone()
 		if e := dp.Apply(s, dp.Upsert, src, model, false); e != dp.OK {
 			c.Violate("harness/model", "model upsert failed: %v", e)
@@ -182,7 +240,24 @@ func (p c09) Run(c *core.Ctx, idx int) {
 			c.Count("steps_same_case")
 		}
 		var err error
-		if c.Guard("UpsertFrom", func() { err = target.Browser().Root().UpsertFrom(srcNode) }) {
+		if c.Guard("UpsertFrom", func() {
+			switch directed {
+			case "set-on-leaf":
+				var lsel *node.Selection
+				if lsel, err = target.Browser().Root().Find(dleaf.Name); err == nil && lsel != nil {
+					err = lsel.Set(dp.ToVal(dleaf.Type, src.Leaves[dleaf.Name]))
+				} else if err == nil {
+					err = fmt.Errorf("verif: leaf %s not found", dleaf.Name)
+				}
+			case "upsert-thru-xfields":
+				var csel *node.Selection
+				if csel, err = target.Browser().Root().Constrain("fc.xfields=" + hideName); err == nil {
+					err = csel.UpsertFrom(srcNode)
+				}
+			default:
+				err = target.Browser().Root().UpsertFrom(srcNode)
+			}
+		}) {
 			return
 		}
 		snap, snapErr := target.Snap()
